@@ -105,11 +105,19 @@ def scan():
             names = []
             for st in cls.body:
                 if isinstance(st, ast.FunctionDef):
-                    names.append(st.name)
+                    names.append(st.name + "".join("@" + ast.unparse(d) for d in st.decorator_list))
                     digests[f"{cls.name}.{st.name}"] = _digest(st)
                 else:
                     names.append("<statement>")
             disp[cls.name] = sorted(names)
+            # instance state of the dispatcher (round 10): every `self.<attr>` that is assigned / augmented / deleted
+            # anywhere in the class - a new attribute (a cache, a memo table) changes this list
+            attrs = set()
+            for node in ast.walk(cls):
+                if isinstance(node, ast.Attribute) and isinstance(node.value, ast.Name) and node.value.id == "self" \
+                        and isinstance(node.ctx, (ast.Store, ast.Del)):
+                    attrs.add(node.attr)
+            disp["_NumpyLikeOperatorDispatcher.attrs"] = sorted(attrs)
     return sorted(dunders), disp, digests
 
 
@@ -127,6 +135,8 @@ def generate() -> dict:
              "/-- methods (and aliases `name=target`) defined by the two dispatcher classes -/",
              f"def defaultDispatcher : List String := {lean_list([lean_str(x) for x in disp.get('NotImplementedOperatorDispatcher', ['<missing>'])])}",
              f"def numpyDispatcher : List String := {lean_list([lean_str(x) for x in disp.get('_NumpyLikeOperatorDispatcher', ['<missing>'])])}\n",
+             "/-- instance attributes the numpy-like dispatcher ever assigns (`self.<attr> = ...` anywhere in the class) -/",
+             f"def numpyDispatcherAttrs : List String := {lean_list([lean_str(x) for x in disp.get('_NumpyLikeOperatorDispatcher.attrs', ['<missing>'])])}\n",
              "end Generated.VarDunders\n"]
     write_if_changed(GEN / "VarDunders.lean", "\n".join(lines))
     return {"wires": [list(d) for d in dunders], "dispatchers": disp, "digests": digests}
